@@ -15,6 +15,7 @@ package writer
 //@ modifies-group WRITER = writer.writer.*, @STATE, pools.*
 //@ modifies-group BUF = buffer.*, uint8
 //@ modifies-group NOTSTACK = writer.writer.*, writer.writerState.*, writer.listStack.*, writer.messageStack.*, writer.stackEntry.*, format.ListElement.*, format.MessageField.*, pools.*
+//@ modifies-group NOTSE = writer.writer.*, writer.writerState.*, writer.messageStack.*, format.MessageField.*, pools.*
 //@ modifies-group NOTSF = writer.writer.*, writer.writerState.*, writer.listStack.*, format.ListElement.*, pools.*
 //@ modifies-group NOTSTACKS = writer.writer.*, writer.writerState.*, writer.listStack.*, writer.messageStack.*, format.ListElement.*, format.MessageField.*, pools.*
 
@@ -378,6 +379,9 @@ package writer
 //@   ensures[C12] old(w.err) == nil && result == nil ==> w.err == nil
 //   C01: stack discipline - a list entry starts at the buffer end and at the end of the element stack
 //@   ensures[C01] old(w.err) == nil && result == nil ==> NS(w) == old(NS(w)) + 1 && SE(w, NS(w) - 1).type_ == 2 && SE(w, NS(w) - 1).start == old(BL(w)) && SE(w, NS(w) - 1).tableStart == old(NE(w)) && NE(w) == old(NE(w)) && NF(w) == old(NF(w))
+//@   ensures[C01] old(w.err) == nil ==> result == nil
+//@   preserves old(w.err) == nil : @NOTSTACKS
+//@   ensures[C01] old(w.err) == nil ==> (forall k :: 0 <= k && k < old(NS(w)) ==> SE(w, k).start == old(SE(w, k).start) && SE(w, k).tableStart == old(SE(w, k).tableStart) && SE(w, k).type_ == old(SE(w, k).type_))
 
 //@ func (*writer).beginElement
 //@   safety[C12]
@@ -427,9 +431,12 @@ package writer
 //   C01: the element table gets one more entry: the END of the element's data relative to the start
 //   of the enclosing list; earlier entries are unchanged
 //@   ensures[C01] old(w.err) == nil && result == nil ==> old(NS(w)) >= 2 && NS(w) == old(NS(w)) - 1 && NE(w) == old(NE(w)) + 1
-//@   ensures[C01] old(w.err) == nil && result == nil && old(BL(w)) <= 4294967295 ==>
+//@   ensures[C01] old(w.err) == nil && result == nil && old(SE(w, NS(w) - 1).tableStart) - old(SE(w, NS(w) - 2).start) <= 4294967295 ==>
 //@        EE(w, NE(w) - 1).Offset == old(SE(w, NS(w) - 1).tableStart) - old(SE(w, NS(w) - 2).start)
 //@   ensures[C01] old(w.err) == nil && result == nil ==> (forall k :: 0 <= k && k < old(NE(w)) ==> EE(w, k).Offset == old(EE(w, k).Offset))
+//@   preserves old(w.err) == nil && result == nil : @NOTSE
+//@   ensures[C01] old(w.err) == nil && result == nil ==> (forall k :: 0 <= k && k < NS(w) ==> SE(w, k).start == old(SE(w, k).start) && SE(w, k).tableStart == old(SE(w, k).tableStart) && SE(w, k).type_ == old(SE(w, k).type_))
+//@   ensures[C01] old(w.err) == nil && old(NS(w)) >= 2 && old(SE(w, NS(w) - 1).type_) == 1 && old(SE(w, NS(w) - 2).type_) == 2 ==> result == nil
 
 //@ func (*writer).listLen
 //@   safety[C12]
@@ -505,6 +512,14 @@ package writer
 //@   ensures[C01] old(w.err) == nil && result1 == nil && lMono ==> BL(w) == lL0 + lTS + uvarintLen(lDS) + uvarintLen(lTS) + 1 && isUvarint(bytesOf(bobj(w.writerState.buf)), lL0 + lTS, uvarintLen(lDS), lDS)
 //@   ensures[C01] old(w.err) == nil && result1 == nil && lMono && !lBig ==> (forall k :: 0 <= k && k < lN ==> listSmallEnd(bytesOf(bobj(w.writerState.buf)), lL0, k) == old(lTab[k].Offset))
 //@   ensures[C01] old(w.err) == nil && result1 == nil && lMono && lBig ==> (forall k :: 0 <= k && k < lN ==> listBigEnd(bytesOf(bobj(w.writerState.buf)), lL0, k) == old(lTab[k].Offset))
+//   ... followed by the table size and the type byte; earlier bytes stay; the result is the slice
+//   [list start, buffer end) of the buffer, and the writer still writes to the same buffer
+//@   ensures[C01] old(w.err) == nil && result1 == nil && lMono ==> isUvarint(bytesOf(bobj(w.writerState.buf)), lL0 + lTS + uvarintLen(lDS), uvarintLen(lTS), lTS) && bytesOf(bobj(w.writerState.buf))[BL(w) - 1] == ite(lBig, 71, 70)
+//@   ensures[C01] old(w.err) == nil && result1 == nil ==> (forall i :: 0 <= i && i < lL0 ==> bytesOf(bobj(w.writerState.buf))[i] == old(bytesOf(bobj(w.writerState.buf)))[i])
+//@   ensures[C01] old(w.err) == nil && result1 == nil ==> obj(result0) == bobj(w.writerState.buf) && lo(result0) == SE(w, NS(w) - 1).start && len(result0) == BL(w) - SE(w, NS(w) - 1).start
+//@   ensures[C01] old(w.err) == nil && result1 == nil ==> w.writerState == old(w.writerState) && w.writerState.buf == old(w.writerState.buf)
+//@   ensures[C01] old(w.err) == nil && result1 == nil ==> (forall k :: 0 <= k && k < NS(w) - 1 ==> SE(w, k).start == old(SE(w, k).start) && SE(w, k).tableStart == old(SE(w, k).tableStart) && SE(w, k).type_ == old(SE(w, k).type_))
+//@   ensures[C01] old(w.err) == nil && old(NS(w)) >= 1 && old(SE(w, NS(w) - 1).type_) == 2 && (old(NS(w)) == 1 || old(SE(w, NS(w) - 2).type_) != 1) && lMono && lDS <= 2147483647 && lTS <= 2147483647 ==> result1 == nil
 
 // ---- writer: messages
 
@@ -717,6 +732,8 @@ package writer
 //@   ensures[C12] w.err == nil ==> STK6(w)
 //@   ensures[C12] w.err == nil ==> STK7(w)
 //@   ensures[C12] STICKY(w, err)
+//   (clauses tagged `thorough`: each takes 3-40 s on the path through the three-way switch; the
+//   quick command defers them to the thorough command)
 //   C01: ending the ROOT message (the only open object) returns the slice [message start, buffer
 //   end) of the writer's buffer; the bytes appended are exactly those of endMessage: the field table
 //   in stack order, the data size, the table size, the type byte; earlier bytes stay.
@@ -728,14 +745,31 @@ package writer
 //@   let eDS = eL0 - eS
 //@   let eTab = w.writerState.fields.stack[eT0:NF(w)]
 //@   let eRoot = w.err == nil && NS(w) == 1 && SE(w, NS(w) - 1).type_ == 4
-//@   ensures[C01] eRoot && err == nil ==> obj(result) == bobj(eB) && lo(result) == eS && len(result) == eDS + (eN * ite(result[len(result) - 1] == 81, 6, 3)) + uvarintLen(eDS) + uvarintLen((eN * ite(result[len(result) - 1] == 81, 6, 3))) + 1 && (result[len(result) - 1] == 81 || result[len(result) - 1] == 80)
-//@   ensures[C01] eRoot && err == nil && !(result[len(result) - 1] == 81) ==> (forall k :: 0 <= k && k < eN ==> smallTag(bytesOf(bobj(eB)), eL0, k) == old(eTab[k].Tag) && smallOff(bytesOf(bobj(eB)), eL0, k) == old(eTab[k].Offset))
-//@   ensures[C01] eRoot && err == nil && result[len(result) - 1] == 81 ==> (forall k :: 0 <= k && k < eN ==> bigTag(bytesOf(bobj(eB)), eL0, k) == old(eTab[k].Tag) && bigOff(bytesOf(bobj(eB)), eL0, k) == old(eTab[k].Offset))
-//@   ensures[C01] eRoot && err == nil ==> isUvarint(bytesOf(bobj(eB)), eL0 + (eN * ite(result[len(result) - 1] == 81, 6, 3)), uvarintLen(eDS), eDS)
-//@   ensures[C01] eRoot && err == nil ==> isUvarint(bytesOf(bobj(eB)), eL0 + (eN * ite(result[len(result) - 1] == 81, 6, 3)) + uvarintLen(eDS), uvarintLen((eN * ite(result[len(result) - 1] == 81, 6, 3))), (eN * ite(result[len(result) - 1] == 81, 6, 3)))
-//@   ensures[C01] eRoot && err == nil ==> (forall i :: 0 <= i && i < eL0 ==> bytesOf(bobj(eB))[i] == old(bytesOf(bobj(eB)))[i])
+//@   ensures[C01,thorough] eRoot && err == nil ==> obj(result) == bobj(eB) && lo(result) == eS && len(result) == eDS + (eN * ite(result[len(result) - 1] == 81, 6, 3)) + uvarintLen(eDS) + uvarintLen((eN * ite(result[len(result) - 1] == 81, 6, 3))) + 1 && (result[len(result) - 1] == 81 || result[len(result) - 1] == 80)
+//@   ensures[C01,thorough] eRoot && err == nil && !(result[len(result) - 1] == 81) ==> (forall k :: 0 <= k && k < eN ==> smallTag(bytesOf(bobj(eB)), eL0, k) == old(eTab[k].Tag) && smallOff(bytesOf(bobj(eB)), eL0, k) == old(eTab[k].Offset))
+//@   ensures[C01,thorough] eRoot && err == nil && result[len(result) - 1] == 81 ==> (forall k :: 0 <= k && k < eN ==> bigTag(bytesOf(bobj(eB)), eL0, k) == old(eTab[k].Tag) && bigOff(bytesOf(bobj(eB)), eL0, k) == old(eTab[k].Offset))
+//@   ensures[C01,thorough] eRoot && err == nil ==> isUvarint(bytesOf(bobj(eB)), eL0 + (eN * ite(result[len(result) - 1] == 81, 6, 3)), uvarintLen(eDS), eDS)
+//@   ensures[C01,thorough] eRoot && err == nil ==> isUvarint(bytesOf(bobj(eB)), eL0 + (eN * ite(result[len(result) - 1] == 81, 6, 3)) + uvarintLen(eDS), uvarintLen((eN * ite(result[len(result) - 1] == 81, 6, 3))), (eN * ite(result[len(result) - 1] == 81, 6, 3)))
+//@   ensures[C01,thorough] eRoot && err == nil ==> (forall i :: 0 <= i && i < eL0 ==> bytesOf(bobj(eB))[i] == old(bytesOf(bobj(eB)))[i])
 //   progress: ending the root message fails only when the data or the table is too large
-//@   ensures[C01] eRoot && eDS <= 2147483647 && eN * 6 <= 2147483647 ==> err == nil
+//@   ensures[C01,thorough] eRoot && eDS <= 2147483647 && eN * 6 <= 2147483647 ==> err == nil
+//   C01: the same for a ROOT list
+//@   let gB = w.writerState.buf
+//@   let gS = SE(w, NS(w) - 1).start
+//@   let gT0 = SE(w, NS(w) - 1).tableStart
+//@   let gN = NE(w) - gT0
+//@   let gL0 = BL(w)
+//@   let gDS = gL0 - gS
+//@   let gTab = w.writerState.elements.stack[gT0:NE(w)]
+//@   let gMono = forall k :: 0 <= k && k < len(gTab) ==> gTab[k].Offset <= gTab[len(gTab)-1].Offset
+//@   let gRoot = w.err == nil && NS(w) == 1 && SE(w, NS(w) - 1).type_ == 2
+//@   ensures[C01,thorough] gRoot && gMono && err == nil ==> obj(result) == bobj(gB) && lo(result) == gS && len(result) == gDS + (gN * ite(result[len(result) - 1] == 71, 4, 2)) + uvarintLen(gDS) + uvarintLen((gN * ite(result[len(result) - 1] == 71, 4, 2))) + 1 && (result[len(result) - 1] == 71 || result[len(result) - 1] == 70)
+//@   ensures[C01,thorough] gRoot && gMono && err == nil && !(result[len(result) - 1] == 71) ==> (forall k :: 0 <= k && k < gN ==> listSmallEnd(bytesOf(bobj(gB)), gL0, k) == old(gTab[k].Offset))
+//@   ensures[C01,thorough] gRoot && gMono && err == nil && result[len(result) - 1] == 71 ==> (forall k :: 0 <= k && k < gN ==> listBigEnd(bytesOf(bobj(gB)), gL0, k) == old(gTab[k].Offset))
+//@   ensures[C01,thorough] gRoot && gMono && err == nil ==> isUvarint(bytesOf(bobj(gB)), gL0 + (gN * ite(result[len(result) - 1] == 71, 4, 2)), uvarintLen(gDS), gDS)
+//@   ensures[C01,thorough] gRoot && gMono && err == nil ==> isUvarint(bytesOf(bobj(gB)), gL0 + (gN * ite(result[len(result) - 1] == 71, 4, 2)) + uvarintLen(gDS), uvarintLen((gN * ite(result[len(result) - 1] == 71, 4, 2))), (gN * ite(result[len(result) - 1] == 71, 4, 2)))
+//@   ensures[C01,thorough] gRoot && gMono && err == nil ==> (forall i :: 0 <= i && i < gL0 ==> bytesOf(bobj(gB))[i] == old(bytesOf(bobj(gB)))[i])
+//@   ensures[C01,thorough] gRoot && gMono && gDS <= 2147483647 && gN * 4 <= 2147483647 ==> err == nil
 
 // ---- construction
 
@@ -849,6 +883,14 @@ package writer
 //@   ensures[C01] result1 == nil ==> result0 == v
 //@   ensures[C01] result1 == nil
 //@   canary[C01] result0 == 0
+
+//@ func ghostListTwoElements
+//@   tier thorough
+//@   requires buf != nil
+//@   modifies @WRITER
+//@   modifies @BUF
+//@   ensures[C01] result3 == nil && result2 == 2 && result0 == v1 && result1 == v2
+//@   canary[C01] result1 == 0
 
 // ---- handles (generated by /verif/tools/gen_writer_contracts.py)
 
@@ -1017,6 +1059,9 @@ package writer
 //@   preserves result == nil : @NOTSTACKS
 //@   ensures[C01] old(w.w.err) == nil && result == nil ==> NS(w.w) == old(NS(w.w)) + 1 && SE(w.w, NS(w.w) - 1).type_ == 1 && SE(w.w, NS(w.w) - 1).start == old(BL(w.w)) && SE(w.w, NS(w.w) - 1).tableStart == BL(w.w)
 //@   ensures[C01] old(w.w.err) == nil && result == nil ==> (forall k :: 0 <= k && k < old(NS(w.w)) ==> SE(w.w, k).start == old(SE(w.w, k).start) && SE(w.w, k).tableStart == old(SE(w.w, k).tableStart) && SE(w.w, k).type_ == old(SE(w.w, k).type_))
+//@   ensures[C01] old(w.w.err) == nil && result == nil ==> BL(w.w) == old(BL(w.w)) + uvarintLen(zigzag(v)) + 1 && isUvarint(bytesOf(bobj(w.w.writerState.buf)), old(BL(w.w)), uvarintLen(zigzag(v)), zigzag(v)) && bytesOf(bobj(w.w.writerState.buf))[BL(w.w) - 1] == 12
+//@   ensures[C01] old(w.w.err) == nil && result == nil ==> (forall i :: 0 <= i && i < old(BL(w.w)) ==> bytesOf(bobj(w.w.writerState.buf))[i] == old(bytesOf(bobj(w.w.writerState.buf)))[i])
+//@   ensures[C01] old(w.w.err) == nil && (old(NS(w.w)) == 0 || old(SE(w.w, NS(w.w) - 1).type_) != 1) ==> result == nil
 //@   ensures[C12] WI(w.w)
 //@   ensures[C12] w.w.err == nil ==> STK1(w.w)
 //@   ensures[C12] w.w.err == nil ==> STK2(w.w)
@@ -1367,6 +1412,22 @@ package writer
 //@   ensures[C12] l.w.err == nil ==> STK6(l.w)
 //@   ensures[C12] l.w.err == nil ==> STK7(l.w)
 //@   ensures[C12] STICKY(l.w, result1)
+//@   let cB = l.w.writerState.buf
+//@   let cS = SE(l.w, NS(l.w) - 1).start
+//@   let cT0 = SE(l.w, NS(l.w) - 1).tableStart
+//@   let cN = NE(l.w) - cT0
+//@   let cL0 = BL(l.w)
+//@   let cDS = cL0 - cS
+//@   let cTab = l.w.writerState.elements.stack[cT0:NE(l.w)]
+//@   let cMono = forall k :: 0 <= k && k < len(cTab) ==> cTab[k].Offset <= cTab[len(cTab)-1].Offset
+//@   let cRoot = l.w != nil && l.w.err == nil && NS(l.w) == 1 && SE(l.w, NS(l.w) - 1).type_ == 2
+//@   ensures[C01] cRoot && cMono && result1 == nil ==> obj(result0) == bobj(cB) && lo(result0) == cS && len(result0) == cDS + (cN * ite(result0[len(result0) - 1] == 71, 4, 2)) + uvarintLen(cDS) + uvarintLen((cN * ite(result0[len(result0) - 1] == 71, 4, 2))) + 1 && (result0[len(result0) - 1] == 71 || result0[len(result0) - 1] == 70)
+//@   ensures[C01] cRoot && cMono && result1 == nil && !(result0[len(result0) - 1] == 71) ==> (forall k :: 0 <= k && k < cN ==> listSmallEnd(bytesOf(bobj(cB)), cL0, k) == old(cTab[k].Offset))
+//@   ensures[C01] cRoot && cMono && result1 == nil && result0[len(result0) - 1] == 71 ==> (forall k :: 0 <= k && k < cN ==> listBigEnd(bytesOf(bobj(cB)), cL0, k) == old(cTab[k].Offset))
+//@   ensures[C01] cRoot && cMono && result1 == nil ==> isUvarint(bytesOf(bobj(cB)), cL0 + (cN * ite(result0[len(result0) - 1] == 71, 4, 2)), uvarintLen(cDS), cDS)
+//@   ensures[C01] cRoot && cMono && result1 == nil ==> isUvarint(bytesOf(bobj(cB)), cL0 + (cN * ite(result0[len(result0) - 1] == 71, 4, 2)) + uvarintLen(cDS), uvarintLen((cN * ite(result0[len(result0) - 1] == 71, 4, 2))), (cN * ite(result0[len(result0) - 1] == 71, 4, 2)))
+//@   ensures[C01] cRoot && cMono && result1 == nil ==> (forall i :: 0 <= i && i < cL0 ==> bytesOf(bobj(cB))[i] == old(bytesOf(bobj(cB)))[i])
+//@   ensures[C01] cRoot && cMono && cDS <= 2147483647 && cN * 4 <= 2147483647 ==> result1 == nil
 
 //@ func (ListWriter).End
 //@   safety[C12]
@@ -1403,6 +1464,10 @@ package writer
 //@   modifies @WRITER
 //@   modifies @BUF
 //@   ensures[C01] old(l.w.err) == nil && result == nil ==> NE(l.w) == old(NE(l.w)) + 1 && NS(l.w) == old(NS(l.w))
+//@   preserves old(l.w.err) == nil && result == nil : @NOTSE
+//@   ensures[C01] old(l.w.err) == nil && result == nil && BL(l.w) - old(SE(l.w, NS(l.w) - 1).start) <= 4294967295 ==> EE(l.w, NE(l.w) - 1).Offset == BL(l.w) - old(SE(l.w, NS(l.w) - 1).start)
+//@   ensures[C01] old(l.w.err) == nil && result == nil ==> (forall k :: 0 <= k && k < old(NE(l.w)) ==> EE(l.w, k).Offset == old(EE(l.w, k).Offset))
+//@   ensures[C01] old(l.w.err) == nil && result == nil ==> (forall k :: 0 <= k && k < NS(l.w) ==> SE(l.w, k).start == old(SE(l.w, k).start) && SE(l.w, k).tableStart == old(SE(l.w, k).tableStart) && SE(l.w, k).type_ == old(SE(l.w, k).type_))
 //@   ensures[C12] WI(l.w)
 //@   ensures[C12] l.w.err == nil ==> STK1(l.w)
 //@   ensures[C12] l.w.err == nil ==> STK2(l.w)
@@ -1426,6 +1491,10 @@ package writer
 //@   modifies @WRITER
 //@   modifies @BUF
 //@   ensures[C01] old(l.w.err) == nil && result == nil ==> NE(l.w) == old(NE(l.w)) + 1 && NS(l.w) == old(NS(l.w))
+//@   preserves old(l.w.err) == nil && result == nil : @NOTSE
+//@   ensures[C01] old(l.w.err) == nil && result == nil && BL(l.w) - old(SE(l.w, NS(l.w) - 1).start) <= 4294967295 ==> EE(l.w, NE(l.w) - 1).Offset == BL(l.w) - old(SE(l.w, NS(l.w) - 1).start)
+//@   ensures[C01] old(l.w.err) == nil && result == nil ==> (forall k :: 0 <= k && k < old(NE(l.w)) ==> EE(l.w, k).Offset == old(EE(l.w, k).Offset))
+//@   ensures[C01] old(l.w.err) == nil && result == nil ==> (forall k :: 0 <= k && k < NS(l.w) ==> SE(l.w, k).start == old(SE(l.w, k).start) && SE(l.w, k).tableStart == old(SE(l.w, k).tableStart) && SE(l.w, k).type_ == old(SE(l.w, k).type_))
 //@   ensures[C12] WI(l.w)
 //@   ensures[C12] l.w.err == nil ==> STK1(l.w)
 //@   ensures[C12] l.w.err == nil ==> STK2(l.w)
@@ -1449,6 +1518,10 @@ package writer
 //@   modifies @WRITER
 //@   modifies @BUF
 //@   ensures[C01] old(l.w.err) == nil && result == nil ==> NE(l.w) == old(NE(l.w)) + 1 && NS(l.w) == old(NS(l.w))
+//@   preserves old(l.w.err) == nil && result == nil : @NOTSE
+//@   ensures[C01] old(l.w.err) == nil && result == nil && BL(l.w) - old(SE(l.w, NS(l.w) - 1).start) <= 4294967295 ==> EE(l.w, NE(l.w) - 1).Offset == BL(l.w) - old(SE(l.w, NS(l.w) - 1).start)
+//@   ensures[C01] old(l.w.err) == nil && result == nil ==> (forall k :: 0 <= k && k < old(NE(l.w)) ==> EE(l.w, k).Offset == old(EE(l.w, k).Offset))
+//@   ensures[C01] old(l.w.err) == nil && result == nil ==> (forall k :: 0 <= k && k < NS(l.w) ==> SE(l.w, k).start == old(SE(l.w, k).start) && SE(l.w, k).tableStart == old(SE(l.w, k).tableStart) && SE(l.w, k).type_ == old(SE(l.w, k).type_))
 //@   ensures[C12] WI(l.w)
 //@   ensures[C12] l.w.err == nil ==> STK1(l.w)
 //@   ensures[C12] l.w.err == nil ==> STK2(l.w)
@@ -1472,6 +1545,10 @@ package writer
 //@   modifies @WRITER
 //@   modifies @BUF
 //@   ensures[C01] old(l.w.err) == nil && result == nil ==> NE(l.w) == old(NE(l.w)) + 1 && NS(l.w) == old(NS(l.w))
+//@   preserves old(l.w.err) == nil && result == nil : @NOTSE
+//@   ensures[C01] old(l.w.err) == nil && result == nil && BL(l.w) - old(SE(l.w, NS(l.w) - 1).start) <= 4294967295 ==> EE(l.w, NE(l.w) - 1).Offset == BL(l.w) - old(SE(l.w, NS(l.w) - 1).start)
+//@   ensures[C01] old(l.w.err) == nil && result == nil ==> (forall k :: 0 <= k && k < old(NE(l.w)) ==> EE(l.w, k).Offset == old(EE(l.w, k).Offset))
+//@   ensures[C01] old(l.w.err) == nil && result == nil ==> (forall k :: 0 <= k && k < NS(l.w) ==> SE(l.w, k).start == old(SE(l.w, k).start) && SE(l.w, k).tableStart == old(SE(l.w, k).tableStart) && SE(l.w, k).type_ == old(SE(l.w, k).type_))
 //@   ensures[C12] WI(l.w)
 //@   ensures[C12] l.w.err == nil ==> STK1(l.w)
 //@   ensures[C12] l.w.err == nil ==> STK2(l.w)
@@ -1495,6 +1572,13 @@ package writer
 //@   modifies @WRITER
 //@   modifies @BUF
 //@   ensures[C01] old(l.w.err) == nil && result == nil ==> NE(l.w) == old(NE(l.w)) + 1 && NS(l.w) == old(NS(l.w))
+//@   preserves old(l.w.err) == nil && result == nil : @NOTSE
+//@   ensures[C01] old(l.w.err) == nil && result == nil && BL(l.w) - old(SE(l.w, NS(l.w) - 1).start) <= 4294967295 ==> EE(l.w, NE(l.w) - 1).Offset == BL(l.w) - old(SE(l.w, NS(l.w) - 1).start)
+//@   ensures[C01] old(l.w.err) == nil && result == nil ==> (forall k :: 0 <= k && k < old(NE(l.w)) ==> EE(l.w, k).Offset == old(EE(l.w, k).Offset))
+//@   ensures[C01] old(l.w.err) == nil && result == nil ==> (forall k :: 0 <= k && k < NS(l.w) ==> SE(l.w, k).start == old(SE(l.w, k).start) && SE(l.w, k).tableStart == old(SE(l.w, k).tableStart) && SE(l.w, k).type_ == old(SE(l.w, k).type_))
+//@   ensures[C01] old(l.w.err) == nil && result == nil ==> BL(l.w) == old(BL(l.w)) + uvarintLen(zigzag(v)) + 1 && isUvarint(bytesOf(bobj(l.w.writerState.buf)), old(BL(l.w)), uvarintLen(zigzag(v)), zigzag(v)) && bytesOf(bobj(l.w.writerState.buf))[BL(l.w) - 1] == 11
+//@   ensures[C01] old(l.w.err) == nil && result == nil ==> (forall i :: 0 <= i && i < old(BL(l.w)) ==> bytesOf(bobj(l.w.writerState.buf))[i] == old(bytesOf(bobj(l.w.writerState.buf)))[i])
+//@   ensures[C01] old(l.w.err) == nil && old(NS(l.w)) >= 1 && old(SE(l.w, NS(l.w) - 1).type_) == 2 ==> result == nil
 //@   ensures[C12] WI(l.w)
 //@   ensures[C12] l.w.err == nil ==> STK1(l.w)
 //@   ensures[C12] l.w.err == nil ==> STK2(l.w)
@@ -1518,6 +1602,13 @@ package writer
 //@   modifies @WRITER
 //@   modifies @BUF
 //@   ensures[C01] old(l.w.err) == nil && result == nil ==> NE(l.w) == old(NE(l.w)) + 1 && NS(l.w) == old(NS(l.w))
+//@   preserves old(l.w.err) == nil && result == nil : @NOTSE
+//@   ensures[C01] old(l.w.err) == nil && result == nil && BL(l.w) - old(SE(l.w, NS(l.w) - 1).start) <= 4294967295 ==> EE(l.w, NE(l.w) - 1).Offset == BL(l.w) - old(SE(l.w, NS(l.w) - 1).start)
+//@   ensures[C01] old(l.w.err) == nil && result == nil ==> (forall k :: 0 <= k && k < old(NE(l.w)) ==> EE(l.w, k).Offset == old(EE(l.w, k).Offset))
+//@   ensures[C01] old(l.w.err) == nil && result == nil ==> (forall k :: 0 <= k && k < NS(l.w) ==> SE(l.w, k).start == old(SE(l.w, k).start) && SE(l.w, k).tableStart == old(SE(l.w, k).tableStart) && SE(l.w, k).type_ == old(SE(l.w, k).type_))
+//@   ensures[C01] old(l.w.err) == nil && result == nil ==> BL(l.w) == old(BL(l.w)) + uvarintLen(zigzag(v)) + 1 && isUvarint(bytesOf(bobj(l.w.writerState.buf)), old(BL(l.w)), uvarintLen(zigzag(v)), zigzag(v)) && bytesOf(bobj(l.w.writerState.buf))[BL(l.w) - 1] == 12
+//@   ensures[C01] old(l.w.err) == nil && result == nil ==> (forall i :: 0 <= i && i < old(BL(l.w)) ==> bytesOf(bobj(l.w.writerState.buf))[i] == old(bytesOf(bobj(l.w.writerState.buf)))[i])
+//@   ensures[C01] old(l.w.err) == nil && old(NS(l.w)) >= 1 && old(SE(l.w, NS(l.w) - 1).type_) == 2 ==> result == nil
 //@   ensures[C12] WI(l.w)
 //@   ensures[C12] l.w.err == nil ==> STK1(l.w)
 //@   ensures[C12] l.w.err == nil ==> STK2(l.w)
@@ -1541,6 +1632,10 @@ package writer
 //@   modifies @WRITER
 //@   modifies @BUF
 //@   ensures[C01] old(l.w.err) == nil && result == nil ==> NE(l.w) == old(NE(l.w)) + 1 && NS(l.w) == old(NS(l.w))
+//@   preserves old(l.w.err) == nil && result == nil : @NOTSE
+//@   ensures[C01] old(l.w.err) == nil && result == nil && BL(l.w) - old(SE(l.w, NS(l.w) - 1).start) <= 4294967295 ==> EE(l.w, NE(l.w) - 1).Offset == BL(l.w) - old(SE(l.w, NS(l.w) - 1).start)
+//@   ensures[C01] old(l.w.err) == nil && result == nil ==> (forall k :: 0 <= k && k < old(NE(l.w)) ==> EE(l.w, k).Offset == old(EE(l.w, k).Offset))
+//@   ensures[C01] old(l.w.err) == nil && result == nil ==> (forall k :: 0 <= k && k < NS(l.w) ==> SE(l.w, k).start == old(SE(l.w, k).start) && SE(l.w, k).tableStart == old(SE(l.w, k).tableStart) && SE(l.w, k).type_ == old(SE(l.w, k).type_))
 //@   ensures[C12] WI(l.w)
 //@   ensures[C12] l.w.err == nil ==> STK1(l.w)
 //@   ensures[C12] l.w.err == nil ==> STK2(l.w)
@@ -1564,6 +1659,10 @@ package writer
 //@   modifies @WRITER
 //@   modifies @BUF
 //@   ensures[C01] old(l.w.err) == nil && result == nil ==> NE(l.w) == old(NE(l.w)) + 1 && NS(l.w) == old(NS(l.w))
+//@   preserves old(l.w.err) == nil && result == nil : @NOTSE
+//@   ensures[C01] old(l.w.err) == nil && result == nil && BL(l.w) - old(SE(l.w, NS(l.w) - 1).start) <= 4294967295 ==> EE(l.w, NE(l.w) - 1).Offset == BL(l.w) - old(SE(l.w, NS(l.w) - 1).start)
+//@   ensures[C01] old(l.w.err) == nil && result == nil ==> (forall k :: 0 <= k && k < old(NE(l.w)) ==> EE(l.w, k).Offset == old(EE(l.w, k).Offset))
+//@   ensures[C01] old(l.w.err) == nil && result == nil ==> (forall k :: 0 <= k && k < NS(l.w) ==> SE(l.w, k).start == old(SE(l.w, k).start) && SE(l.w, k).tableStart == old(SE(l.w, k).tableStart) && SE(l.w, k).type_ == old(SE(l.w, k).type_))
 //@   ensures[C12] WI(l.w)
 //@   ensures[C12] l.w.err == nil ==> STK1(l.w)
 //@   ensures[C12] l.w.err == nil ==> STK2(l.w)
@@ -1587,6 +1686,10 @@ package writer
 //@   modifies @WRITER
 //@   modifies @BUF
 //@   ensures[C01] old(l.w.err) == nil && result == nil ==> NE(l.w) == old(NE(l.w)) + 1 && NS(l.w) == old(NS(l.w))
+//@   preserves old(l.w.err) == nil && result == nil : @NOTSE
+//@   ensures[C01] old(l.w.err) == nil && result == nil && BL(l.w) - old(SE(l.w, NS(l.w) - 1).start) <= 4294967295 ==> EE(l.w, NE(l.w) - 1).Offset == BL(l.w) - old(SE(l.w, NS(l.w) - 1).start)
+//@   ensures[C01] old(l.w.err) == nil && result == nil ==> (forall k :: 0 <= k && k < old(NE(l.w)) ==> EE(l.w, k).Offset == old(EE(l.w, k).Offset))
+//@   ensures[C01] old(l.w.err) == nil && result == nil ==> (forall k :: 0 <= k && k < NS(l.w) ==> SE(l.w, k).start == old(SE(l.w, k).start) && SE(l.w, k).tableStart == old(SE(l.w, k).tableStart) && SE(l.w, k).type_ == old(SE(l.w, k).type_))
 //@   ensures[C12] WI(l.w)
 //@   ensures[C12] l.w.err == nil ==> STK1(l.w)
 //@   ensures[C12] l.w.err == nil ==> STK2(l.w)
@@ -1610,6 +1713,10 @@ package writer
 //@   modifies @WRITER
 //@   modifies @BUF
 //@   ensures[C01] old(l.w.err) == nil && result == nil ==> NE(l.w) == old(NE(l.w)) + 1 && NS(l.w) == old(NS(l.w))
+//@   preserves old(l.w.err) == nil && result == nil : @NOTSE
+//@   ensures[C01] old(l.w.err) == nil && result == nil && BL(l.w) - old(SE(l.w, NS(l.w) - 1).start) <= 4294967295 ==> EE(l.w, NE(l.w) - 1).Offset == BL(l.w) - old(SE(l.w, NS(l.w) - 1).start)
+//@   ensures[C01] old(l.w.err) == nil && result == nil ==> (forall k :: 0 <= k && k < old(NE(l.w)) ==> EE(l.w, k).Offset == old(EE(l.w, k).Offset))
+//@   ensures[C01] old(l.w.err) == nil && result == nil ==> (forall k :: 0 <= k && k < NS(l.w) ==> SE(l.w, k).start == old(SE(l.w, k).start) && SE(l.w, k).tableStart == old(SE(l.w, k).tableStart) && SE(l.w, k).type_ == old(SE(l.w, k).type_))
 //@   ensures[C12] WI(l.w)
 //@   ensures[C12] l.w.err == nil ==> STK1(l.w)
 //@   ensures[C12] l.w.err == nil ==> STK2(l.w)
@@ -1633,6 +1740,10 @@ package writer
 //@   modifies @WRITER
 //@   modifies @BUF
 //@   ensures[C01] old(l.w.err) == nil && result == nil ==> NE(l.w) == old(NE(l.w)) + 1 && NS(l.w) == old(NS(l.w))
+//@   preserves old(l.w.err) == nil && result == nil : @NOTSE
+//@   ensures[C01] old(l.w.err) == nil && result == nil && BL(l.w) - old(SE(l.w, NS(l.w) - 1).start) <= 4294967295 ==> EE(l.w, NE(l.w) - 1).Offset == BL(l.w) - old(SE(l.w, NS(l.w) - 1).start)
+//@   ensures[C01] old(l.w.err) == nil && result == nil ==> (forall k :: 0 <= k && k < old(NE(l.w)) ==> EE(l.w, k).Offset == old(EE(l.w, k).Offset))
+//@   ensures[C01] old(l.w.err) == nil && result == nil ==> (forall k :: 0 <= k && k < NS(l.w) ==> SE(l.w, k).start == old(SE(l.w, k).start) && SE(l.w, k).tableStart == old(SE(l.w, k).tableStart) && SE(l.w, k).type_ == old(SE(l.w, k).type_))
 //@   ensures[C12] WI(l.w)
 //@   ensures[C12] l.w.err == nil ==> STK1(l.w)
 //@   ensures[C12] l.w.err == nil ==> STK2(l.w)
@@ -1656,6 +1767,10 @@ package writer
 //@   modifies @WRITER
 //@   modifies @BUF
 //@   ensures[C01] old(l.w.err) == nil && result == nil ==> NE(l.w) == old(NE(l.w)) + 1 && NS(l.w) == old(NS(l.w))
+//@   preserves old(l.w.err) == nil && result == nil : @NOTSE
+//@   ensures[C01] old(l.w.err) == nil && result == nil && BL(l.w) - old(SE(l.w, NS(l.w) - 1).start) <= 4294967295 ==> EE(l.w, NE(l.w) - 1).Offset == BL(l.w) - old(SE(l.w, NS(l.w) - 1).start)
+//@   ensures[C01] old(l.w.err) == nil && result == nil ==> (forall k :: 0 <= k && k < old(NE(l.w)) ==> EE(l.w, k).Offset == old(EE(l.w, k).Offset))
+//@   ensures[C01] old(l.w.err) == nil && result == nil ==> (forall k :: 0 <= k && k < NS(l.w) ==> SE(l.w, k).start == old(SE(l.w, k).start) && SE(l.w, k).tableStart == old(SE(l.w, k).tableStart) && SE(l.w, k).type_ == old(SE(l.w, k).type_))
 //@   ensures[C12] WI(l.w)
 //@   ensures[C12] l.w.err == nil ==> STK1(l.w)
 //@   ensures[C12] l.w.err == nil ==> STK2(l.w)
@@ -1679,6 +1794,10 @@ package writer
 //@   modifies @WRITER
 //@   modifies @BUF
 //@   ensures[C01] old(l.w.err) == nil && result == nil ==> NE(l.w) == old(NE(l.w)) + 1 && NS(l.w) == old(NS(l.w))
+//@   preserves old(l.w.err) == nil && result == nil : @NOTSE
+//@   ensures[C01] old(l.w.err) == nil && result == nil && BL(l.w) - old(SE(l.w, NS(l.w) - 1).start) <= 4294967295 ==> EE(l.w, NE(l.w) - 1).Offset == BL(l.w) - old(SE(l.w, NS(l.w) - 1).start)
+//@   ensures[C01] old(l.w.err) == nil && result == nil ==> (forall k :: 0 <= k && k < old(NE(l.w)) ==> EE(l.w, k).Offset == old(EE(l.w, k).Offset))
+//@   ensures[C01] old(l.w.err) == nil && result == nil ==> (forall k :: 0 <= k && k < NS(l.w) ==> SE(l.w, k).start == old(SE(l.w, k).start) && SE(l.w, k).tableStart == old(SE(l.w, k).tableStart) && SE(l.w, k).type_ == old(SE(l.w, k).type_))
 //@   ensures[C12] WI(l.w)
 //@   ensures[C12] l.w.err == nil ==> STK1(l.w)
 //@   ensures[C12] l.w.err == nil ==> STK2(l.w)
@@ -1702,6 +1821,10 @@ package writer
 //@   modifies @WRITER
 //@   modifies @BUF
 //@   ensures[C01] old(l.w.err) == nil && result == nil ==> NE(l.w) == old(NE(l.w)) + 1 && NS(l.w) == old(NS(l.w))
+//@   preserves old(l.w.err) == nil && result == nil : @NOTSE
+//@   ensures[C01] old(l.w.err) == nil && result == nil && BL(l.w) - old(SE(l.w, NS(l.w) - 1).start) <= 4294967295 ==> EE(l.w, NE(l.w) - 1).Offset == BL(l.w) - old(SE(l.w, NS(l.w) - 1).start)
+//@   ensures[C01] old(l.w.err) == nil && result == nil ==> (forall k :: 0 <= k && k < old(NE(l.w)) ==> EE(l.w, k).Offset == old(EE(l.w, k).Offset))
+//@   ensures[C01] old(l.w.err) == nil && result == nil ==> (forall k :: 0 <= k && k < NS(l.w) ==> SE(l.w, k).start == old(SE(l.w, k).start) && SE(l.w, k).tableStart == old(SE(l.w, k).tableStart) && SE(l.w, k).type_ == old(SE(l.w, k).type_))
 //@   ensures[C12] WI(l.w)
 //@   ensures[C12] l.w.err == nil ==> STK1(l.w)
 //@   ensures[C12] l.w.err == nil ==> STK2(l.w)
@@ -1725,6 +1848,10 @@ package writer
 //@   modifies @WRITER
 //@   modifies @BUF
 //@   ensures[C01] old(l.w.err) == nil && result == nil ==> NE(l.w) == old(NE(l.w)) + 1 && NS(l.w) == old(NS(l.w))
+//@   preserves old(l.w.err) == nil && result == nil : @NOTSE
+//@   ensures[C01] old(l.w.err) == nil && result == nil && BL(l.w) - old(SE(l.w, NS(l.w) - 1).start) <= 4294967295 ==> EE(l.w, NE(l.w) - 1).Offset == BL(l.w) - old(SE(l.w, NS(l.w) - 1).start)
+//@   ensures[C01] old(l.w.err) == nil && result == nil ==> (forall k :: 0 <= k && k < old(NE(l.w)) ==> EE(l.w, k).Offset == old(EE(l.w, k).Offset))
+//@   ensures[C01] old(l.w.err) == nil && result == nil ==> (forall k :: 0 <= k && k < NS(l.w) ==> SE(l.w, k).start == old(SE(l.w, k).start) && SE(l.w, k).tableStart == old(SE(l.w, k).tableStart) && SE(l.w, k).type_ == old(SE(l.w, k).type_))
 //@   ensures[C12] WI(l.w)
 //@   ensures[C12] l.w.err == nil ==> STK1(l.w)
 //@   ensures[C12] l.w.err == nil ==> STK2(l.w)
@@ -1748,6 +1875,10 @@ package writer
 //@   modifies @WRITER
 //@   modifies @BUF
 //@   ensures[C01] old(l.w.err) == nil && result == nil ==> NE(l.w) == old(NE(l.w)) + 1 && NS(l.w) == old(NS(l.w))
+//@   preserves old(l.w.err) == nil && result == nil : @NOTSE
+//@   ensures[C01] old(l.w.err) == nil && result == nil && BL(l.w) - old(SE(l.w, NS(l.w) - 1).start) <= 4294967295 ==> EE(l.w, NE(l.w) - 1).Offset == BL(l.w) - old(SE(l.w, NS(l.w) - 1).start)
+//@   ensures[C01] old(l.w.err) == nil && result == nil ==> (forall k :: 0 <= k && k < old(NE(l.w)) ==> EE(l.w, k).Offset == old(EE(l.w, k).Offset))
+//@   ensures[C01] old(l.w.err) == nil && result == nil ==> (forall k :: 0 <= k && k < NS(l.w) ==> SE(l.w, k).start == old(SE(l.w, k).start) && SE(l.w, k).tableStart == old(SE(l.w, k).tableStart) && SE(l.w, k).type_ == old(SE(l.w, k).type_))
 //@   ensures[C12] WI(l.w)
 //@   ensures[C12] l.w.err == nil ==> STK1(l.w)
 //@   ensures[C12] l.w.err == nil ==> STK2(l.w)
@@ -2364,6 +2495,9 @@ package writer
 //@   ensures[C12] w.err == nil ==> STK7(w)
 //@   ensures[C12] old(w.err) != nil ==> w.err == old(w.err)
 //@   ensures[C12] result.w == w
+//@   preserves old(w.err) == nil : @NOTSTACKS
+//@   ensures[C01] old(w.err) == nil ==> w.err == nil && NS(w) == old(NS(w)) + 1 && SE(w, NS(w) - 1).type_ == 2 && SE(w, NS(w) - 1).start == old(BL(w)) && SE(w, NS(w) - 1).tableStart == old(NE(w)) && NE(w) == old(NE(w)) && NF(w) == old(NF(w)) && BL(w) == old(BL(w))
+//@   ensures[C01] old(w.err) == nil ==> (forall k :: 0 <= k && k < old(NS(w)) ==> SE(w, k).start == old(SE(w, k).start) && SE(w, k).tableStart == old(SE(w, k).tableStart) && SE(w, k).type_ == old(SE(w, k).type_))
 
 //@ func (*writer).Value
 //@   safety[C12]
